@@ -176,7 +176,10 @@ fn run(case: &Case) -> Result<Outcome, Failure> {
                         );
                     },
                     1 => {
-                        let (ctx_, crx) = crossbeam_channel::unbounded::<Node>();
+                        // an existing crossbeam sender may be bounded and its consumer slow: the
+                        // route must then wait, not drop (the consumer only starts reading after all
+                        // registering threads have finished)
+                        let (ctx_, crx) = if r.jitter % 3 == 0 { crossbeam_channel::bounded::<Node>(1 + (r.jitter as usize / 3) % 4) } else { crossbeam_channel::unbounded::<Node>() };
                         proxy.route_ipc_receiver_to_crossbeam_sender(rx, ctx_);
                         let _ = cons_tx.send((*i, crx));
                     },
@@ -219,36 +222,52 @@ fn run(case: &Case) -> Result<Outcome, Failure> {
     }
     let all_dropped = stamp();
     // ---- await completion of every route ----------------------------------------------------------
+    // (a bounded crossbeam target makes the router wait for its consumer: all consumers therefore
+    // read concurrently, starting only now - i.e. lagging behind the traffic)
     let wd = Duration::from_secs(sandbox::watchdog_secs());
+    let mut consumer_threads = vec![];
+    for i in 0..n {
+        if case.routes[i].kind % 3 != 0 {
+            let crx = consumers[i].take().unwrap();
+            let log = logs[i].clone();
+            let total = case.routes[i].msgs.len();
+            consumer_threads.push((i, std::thread::spawn(move || -> Result<(), String> {
+                let t0 = std::time::Instant::now();
+                loop {
+                    match crx.recv_timeout(Duration::from_millis(200)) {
+                        Ok(v) => record(&log, v),
+                        Err(crossbeam_channel::RecvTimeoutError::Disconnected) => {
+                            log.lock().unwrap().push(Ev::Dropped { at: stamp() });
+                            return Ok(());
+                        },
+                        Err(crossbeam_channel::RecvTimeoutError::Timeout) => {
+                            if t0.elapsed() > wd * 2 {
+                                let got = log.lock().unwrap().len();
+                                return Err(format!("{} of {} messages forwarded, then nothing and no disconnection although the sender was dropped", got, total));
+                            }
+                        },
+                    }
+                }
+            })));
+        }
+    }
     for i in 0..n {
         let r = &case.routes[i];
         if r.kind % 3 == 0 {
-            match done_rx[i].as_ref().unwrap().recv_timeout(wd) {
+            match done_rx[i].as_ref().unwrap().recv_timeout(wd * 2) {
                 Ok(()) => {},
                 Err(_) => {
                     let got = logs[i].lock().unwrap().len();
                     fail!("router:callback-never-dropped", "route {} (callback): sender dropped (all drops returned by stamp {}), {} of {} messages were delivered, but the callback was not dropped within the watchdog: messages lost or closure not noticed", i, all_dropped, got, r.msgs.len());
                 },
             }
-        } else {
-            let crx = consumers[i].take().unwrap();
-            let log = logs[i].clone();
-            let t0 = std::time::Instant::now();
-            loop {
-                match crx.recv_timeout(Duration::from_millis(200)) {
-                    Ok(v) => record(&log, v),
-                    Err(crossbeam_channel::RecvTimeoutError::Disconnected) => {
-                        log.lock().unwrap().push(Ev::Dropped { at: stamp() });
-                        break;
-                    },
-                    Err(crossbeam_channel::RecvTimeoutError::Timeout) => {
-                        if t0.elapsed() > wd {
-                            let got = log.lock().unwrap().len();
-                            fail!("router:crossbeam-route-never-ends", "route {} (crossbeam): {} of {} messages forwarded, then nothing and no disconnection although the sender was dropped", i, got, r.msgs.len());
-                        }
-                    },
-                }
-            }
+        }
+    }
+    for (i, h) in consumer_threads {
+        match h.join() {
+            Ok(Ok(())) => {},
+            Ok(Err(e)) => fail!("router:crossbeam-route-never-ends", "route {} (crossbeam): {}", i, e),
+            Err(_) => fail!("router:consumer-panicked", "consumer of route {} panicked", i),
         }
     }
     // ---- oracle -------------------------------------------------------------------------------------
